@@ -557,7 +557,7 @@ class BasicContiguousVector<cntgs::Options<Option...>, Parameter...>
         }
         else
         {
-            return std::equal(begin(), end(), other.begin());
+            return std::equal(begin(), end(), other.begin(), other.end());
         }
     }
     template <class... TOption>
